@@ -3,5 +3,5 @@ CONSTANTS
   Alphabet <- MCAlphabet
   MaxLen = 3
   Emit = TRUE
-INVARIANTS TrimIdem TrimInvariant IntIsFloat IntIsVec BitIsBoth TokensClean Vec3IsVec FloatTableOk Vector
+INVARIANTS TrimIdem TrimInvariant IntIsFloat IntIsVec BitIsBoth TokensClean Vec3IsVec D3IsVec FloatTableOk Vector
 CHECK_DEADLOCK FALSE
